@@ -92,6 +92,9 @@ class Exporter:
         self.hooks = hooks or {}
         self.subs = {}          # name -> sub record
         self._busy = set()
+        self.track = None       # statement node to wrap in a "track" record
+        self.track_fields = {}
+        self.track_range = None  # (schedule node, first, last+1): statements to track
 
     # ------------------------------------------------------------ expressions
     def expr(self, node):
@@ -175,15 +178,32 @@ class Exporter:
     # ------------------------------------------------------------- statements
     def body(self, sched):
         out = []
-        for child in sched.children:
+        rng = self.track_range if self.track_range and \
+            self.track_range[0] is sched else None
+        inner = None
+        for pos, child in enumerate(sched.children):
+            dest = out
+            if rng and rng[1] <= pos < rng[2]:
+                if inner is None:
+                    inner = {"k": "track", "body": []}
+                    inner.update(self.track_fields)
+                    out.append(inner)
+                dest = inner["body"]
             st = self.stmt(child)
             if isinstance(st, list):
-                out.extend(st)
+                dest.extend(st)
             elif st is not None:
-                out.append(st)
+                dest.append(st)
         return out
 
     def stmt(self, node):
+        if self.track is not None and node is self.track:
+            self.track = None
+            st = self.stmt(node)
+            self.track = node
+            rec = {"k": "track", "body": st if isinstance(st, list) else [st]}
+            rec.update(self.track_fields)
+            return rec
         N, _ = _imports()
         cname = type(node).__name__
         if cname in self.hooks:
@@ -207,7 +227,7 @@ class Exporter:
         if isinstance(node, N.Return):
             return {"k": "return"}
         if isinstance(node, N.IntrinsicCall):
-            raise Unsupported(f"intrinsic subroutine {node.intrinsic.name}")
+            return self.isub(node)
         if isinstance(node, N.Call):
             return self.call(node)
         if isinstance(node, N.CodeBlock):
@@ -215,6 +235,35 @@ class Exporter:
         if isinstance(node, N.Schedule):
             return {"k": "block", "body": self.body(node)}
         raise Unsupported(f"statement node {cname}")
+
+    # arguments (0-based positions) an intrinsic subroutine defines, from the
+    # Fortran 2008 standard (13.7); the others are read
+    INTRINSIC_SUB_WRITES = {"RANDOM_NUMBER": (0,), "CPU_TIME": (0,),
+                            "SYSTEM_CLOCK": (0, 1, 2), "DATE_AND_TIME": (0, 1, 2, 3),
+                            "MVBITS": (3,)}
+
+    def isub(self, node):
+        name = node.intrinsic.name.upper()
+        if name not in self.INTRINSIC_SUB_WRITES:
+            raise Unsupported(f"intrinsic subroutine {name}")
+        if any(n is not None for n in node.argument_names):
+            raise Unsupported("named argument of intrinsic subroutine")
+        return self._isub(name, node.arguments)
+
+    def _isub(self, name, arguments):
+        wpos = self.INTRINSIC_SUB_WRITES[name]
+        reads, writes = [], []
+        for k, arg in enumerate(arguments):
+            e = self.expr(arg)
+            if k in wpos:
+                if e["k"] not in ("ref", "aref"):
+                    raise Unsupported("intrinsic subroutine output is not a variable")
+                writes.append(e)
+                if name == "MVBITS":
+                    reads.append(e)      # TO is intent(inout)
+            else:
+                reads.append(e)
+        return {"k": "isub", "name": name, "reads": reads, "writes": writes}
 
     def codeblock(self, node):
         from fparser.two import Fortran2003 as F
@@ -235,6 +284,8 @@ class Exporter:
             raise Unsupported("named argument in call")
         if name not in self.subs:
             target = self._find_routine(node, name)
+            if target is None and name.upper() in self.INTRINSIC_SUB_WRITES:
+                return self._isub(name.upper(), node.arguments)
             if target is None:
                 raise Unsupported(f"call to unknown routine {name}")
             if name in self._busy:
